@@ -18,21 +18,6 @@ def adv? : Sexp → Option Adv
   | .list [.atom "rot", k] => do some (Adv.rot (← nat? k))
   | _ => none
 
-/-- all nodes the queries can mention: the variables, then the derivative left-hand sides in equation order -/
-def nodesOf (F : Flat) : List (Lhs VRef) :=
-  (variables F).map Lhs.var ++ (F.eqs.filter (·.lhs.isDiff)).map (·.lhs)
-
-def strKey : Lhs VRef → String
-  | .var a => C01.flatName a        -- `Variable.__str__` is the bare name; inside a Derivative SymPy prints `_name`
-  | .diff x t => "Derivative(_" ++ C01.flatName x ++ ", _" ++ C01.flatName t ++ ")"
-
-def ctxOf (F : Flat) : Ctx :=
-  let U := nodesOf F
-  { num := fun x => U.idxOf x
-    key := fun n => match U[n]? with
-      | some x => strKey x
-      | none => "?" ++ toString n }
-
 def nodeName (F : Flat) (n : Node) : Sexp :=
   match (nodesOf F)[n]? with
   | some x => .str (C01.lhsName x)
